@@ -76,6 +76,34 @@ func Validate(key string, data []byte) (ver int, err error) {
 	return ver, nil
 }
 
+// IsProperPrefix reports whether data is a proper prefix of a content of
+// total bytes written for key (some version).
+func IsProperPrefix(key string, data []byte, total int) bool {
+	if len(data) >= total {
+		return false
+	}
+	nl := bytes.IndexByte(data, '\n')
+	if nl < 0 {
+		// not even the header is complete
+		want := []byte(key + ",")
+		n := len(data)
+		if n > len(want) {
+			n = len(want)
+		}
+		return len(data) < MinSelfDescribing && bytes.Equal(data[:n], want[:n])
+	}
+	parts := strings.Split(string(data[:nl]), ",")
+	if len(parts) != 3 || parts[0] != key {
+		return false
+	}
+	ver, e1 := strconv.Atoi(parts[1])
+	n, e2 := strconv.Atoi(parts[2])
+	if e1 != nil || e2 != nil || n != total {
+		return false
+	}
+	return bytes.HasPrefix(Content(key, ver, total), data)
+}
+
 func clip(b []byte) []byte {
 	if len(b) > 24 {
 		return b[:24]
